@@ -324,6 +324,7 @@ func (u *Url) Clone() *Url {
 	}
 	if u.searchParams != nil {
 		c.searchParams = u.searchParams.Clone()
+		c.searchParams.url = c
 	}
 	return c
 }
